@@ -153,6 +153,12 @@ def sliding_window_view(arr, window_shape, step, dilation=None):
             f"integers, got: {step}"
         )
 
+    if len(step) != len(window_shape):
+        raise ValueError(
+            f"`step` must be a positive integer or a sequence of positive integers "
+            f"with the same length as `window_shape` ({window_shape}), got: {step}"
+        )
+
     if any(i > j for i, j in zip(window_shape[::-1], arr.shape[::-1])):
         raise ValueError(
             f"Each size of the window-shape must fit within the trailing "
